@@ -1,6 +1,21 @@
-"""C09 — saved reports load back unchanged (JSON and XML) (models M10 `Serial`, accessors of M4)."""
+"""C09 — saved reports load back unchanged (JSON and XML) (models M10 `Serial` + `JsonFile` + `Store`, accessors of M4).
+
+Streams
+  C09.json      one save + load with the JSON backend: every option combination of `JsonBackend` (JavaScript prefix or not, pretty or
+                compact), `backend.save_report` or `report.bind(); report.save()`, `backend.load_report` or the format-detecting
+                `load_report`; texts of every class, incl. texts QUOTING the file formats (`var reporting_data = `, `<?xml …`) and
+                split surrogate pairs; the start of the real file against `JsonFile.frame` / `unframe`
+  C09.xml       the same with the XML backend (D8 classes isolated), JSON-loaded = XML-loaded
+  C09.seq       ONE live report saved, modified in place (finished and already saved tests included) and saved again, several times,
+                with either backend, any options, the same or another path, the same or a fresh backend instance; every load must
+                give the report as it was at the last save to that path (model `Store.run`)
+  C09.etnorm    the XML text layer against `Serial.etNorm`
+  C09.jsontext  `json.dumps` against `JsonFile.jsonEscape`, the codecs against `JsonFile.encodable`
+  C09.time      the ISO-8601 millisecond text layer
+"""
 import copy
 import datetime
+import math
 import os
 import shutil
 import tempfile
@@ -16,7 +31,9 @@ DRIVER = "drivers/C09.lean"
 TRUSTED_BASE = [
     "Lean 4.33.0 kernel; axioms of the property theorems ⊆ {propext, Classical.choice, Quot.sound}",
     "hand-written model LccModel/Model/Serial.lean of reporting/backends/json_.py and xml.py (serialize/unserialize pairs, field by field) "
-    "and the accessors of report.py in LccModel/Model/Writer.lean (get_tests/get_suites: stable sort by rank)",
+    "and the accessors of report.py in LccModel/Model/Writer.lean (get_tests/get_suites: stable sort by rank); Model/JsonFile.lean "
+    "(JsonBackend options, JavaScript prefix written / stripped at offset 0, ensure_ascii escaping, codec encodability); Model/Store.lean "
+    "(a live report saved, modified and saved again: files hold serialised values, loads read them back)",
     "text layers are parameters of the model, each validated by its own stream and not proved: json.dumps/json.loads = identity on JSON "
     "values (C09.json), ET.tostring/ET.parse = etNorm (C09.etnorm), float→ms rounding and ISO-8601 text (C09.time)",
     "correspondence harness harness/props/c09.py + harness/gen/reports.py (generator, builder to real objects, canonical form)",
@@ -30,14 +47,25 @@ ASSUMPTIONS = [
     "property keys within a node (Python dicts)",
     "reports without a start time on some item (not producible by the reporting API) are outside the property: the XML serializer "
     "raises TypeError on them; the model predicts it, the oracle does not count it",
-    "the locale encoding used by open(path, 'w') is UTF-8",
+    "the locale encoding used by open(path, 'w') is UTF-8 (other locales: stream C10.locale)",
+    "the JSON text layer is the identity on every str except one holding a high surrogate immediately followed by a low surrogate as two "
+    "code points (open finding C09/json/split-surrogate-pair-merged); the model's input is the str as JSON spells it (merge_pairs)",
+    "modifications of a live report between two saves go through the attributes / methods of the report objects (tags, links, properties, "
+    "status, status_details, end_time, add_step, add_log, add_test, add_info, title, description, log message); the description the "
+    "oracle uses and the live objects are checked to agree after every modification (canon_report)",
 ]
-RULE = ("a generated report tree saved and loaded with the real backend; non-trivial = at least 2 results and (a string from a "
-        "non-plain class or an unfinished item); distinct = hash of the report description")
+RULE = ("a generated report tree saved and loaded with the real backend (JSON: every combination of javascript_compatibility / "
+        "pretty_formatting, backend.save_report or report.save(), backend.load_report or the format-detecting load_report); non-trivial = "
+        "at least 2 results and (a string from a non-plain class or an unfinished item); C09.seq: non-trivial = a successful save, then a "
+        "modification of the live objects, then another successful save; C09.jsontext: a string json.dumps has to escape; "
+        "distinct = hash of the case")
 EXPLANATION = ("Round-trip theorems for every report (JSON: unconditional on representable reports; XML: under the decidable guard "
                "xmlSafe, with refutation theorems for each D8 class) proved in Lean; the models are tied to json_.py / xml.py by saving "
                "and loading generated reports with the real backends and comparing the loaded object graph (or the failure class) with "
-               "the model's prediction; etNorm and the time text layer have their own differential streams.")
+               "the model's prediction; etNorm, the JSON escaping / encodability and the time text layer have their own differential "
+               "streams; the JSON file layer (options, prefix) is a theorem over every option combination and every text, its hypotheses "
+               "checked on every real file; sequences save / modify / save on the same live objects are a simulation theorem "
+               "(Store.run = Store.specRun) and the stream C09.seq.")
 
 # Times are taken below 2**33 s (year 2242): up to there the spacing of doubles is below 1 µs, so `utcfromtimestamp`'s rounding to
 # microseconds recovers the exact millisecond before `isoformat(timespec="milliseconds")` TRUNCATES; beyond, a millisecond can be
@@ -647,7 +675,8 @@ class TimeLayer(C.Stream):
     thorough_seconds = 60
     chunk = 500
     corpus = [{"ms": 0}, {"ms": 1}, {"ms": 999}, {"ms": 1000}, {"ms": R.T0}, {"ms": TMAX_MS - 1}, {"x": 1600000000.0005},
-              {"x": 0.0015}, {"x": 1.0004999}, {"x": 1600000000.9995}]
+              {"x": 0.0015}, {"x": 1.0004999}, {"x": 1600000000.9995},
+              {"x": 4253578702.2205}]     # just below a tie, where doubles are 0.48 µs apart (a past false alarm of this oracle)
 
     def gen(self, rng, i):
         if rng.random() < 0.5:
@@ -675,7 +704,9 @@ class TimeLayer(C.Stream):
             return []
         x = case["x"]
         k = round(back * 1000)
-        if back != k / 1000.0 or abs(back - x) > 0.000500001:
+        # nearest millisecond: |back - x| <= 0.5 ms, up to the representation error of the two doubles (their spacing reaches
+        # 0.95 µs below 2**33 s: `back`, the double nearest to k/1000, may itself lie an ulp away from the decimal value)
+        if back != k / 1000.0 or abs(back - x) > 0.0005 + 2 * math.ulp(x):
             return [C.Failure("C09/time/not-nearest-ms", f"{x!r} came back as {obs['back']}")]
         return []
 
